@@ -260,7 +260,7 @@ func c08K5InvalidMessage(r *Run) {
 		carries := false
 		allInstrs(rl, func(in ssa.Instruction) {
 			if st, ok := in.(*ssa.Store); ok {
-				if _, fld, ok := fieldAddrOf(st.Addr); ok && fld.Name() == "err" && typeName(st.Addr.(*ssa.FieldAddr).X.Type()) == "rxMsg" {
+				if _, fld, ok := fieldAddrOf(st.Addr); ok && fname(fld) == "err" && typeName(st.Addr.(*ssa.FieldAddr).X.Type()) == "rxMsg" {
 					carries = true
 				}
 			}
@@ -524,7 +524,7 @@ func c16H3(r *Run) {
 	fieldCall := func(call *ssa.Call) string {
 		if u, ok := call.Call.Value.(*ssa.UnOp); ok {
 			if _, fld, ok := fieldAddrOf(u.X); ok {
-				return fld.Name()
+				return fname(fld)
 			}
 		}
 		return ""
@@ -622,7 +622,7 @@ func c16H4(r *Run) {
 	srvField := func(v ssa.Value) string {
 		if u, ok := v.(*ssa.UnOp); ok {
 			if _, fld, ok := fieldAddrOf(u.X); ok && typeName(u.X.(*ssa.FieldAddr).X.Type()) == "Server" {
-				return fld.Name()
+				return fname(fld)
 			}
 		}
 		return ""
